@@ -3,6 +3,7 @@ package checks
 import (
 	"bytes"
 	"fmt"
+	"io"
 	"reflect"
 	"strings"
 
@@ -258,6 +259,22 @@ func alphabet(name string) []sop {
 		add(setOps("SetOptions", "Options", 1, mq.Opt(0), mq.Opt(1), mq.Opt(3), mq.Opt(0xff))...)
 	case "UserProperties":
 		add(userPropOps()...)
+	}
+	// read-only operations interleaved with the setters: their model effect
+	// is "nothing"; a buffer or cache kept across calls shows in the state
+	// reached afterwards
+	if name != "TopicFilter" && name != "UserProperties" {
+		add(sop{Name: "WriteTo", Call: func(q any) {
+			if p, ok := q.(mq.Packet); ok {
+				p.WriteTo(io.Discard)
+			}
+		}, Model: func(m KV) {}})
+		add(sop{Name: "String+Dump", Call: func(q any) {
+			if p, ok := q.(mq.Packet); ok {
+				_ = p.String()
+				mq.Dump(io.Discard, p)
+			}
+		}, Model: func(m KV) {}})
 	}
 	return ops
 }
